@@ -21,7 +21,7 @@ pub fn run(args: &Args) {
     let cfg = LintConfig { default_jsx_factory: if crng.chance(1, 3) { Some("h".into()) } else { None }, default_jsx_fragment_factory: None };
     out.count(&format!("subset={}", kind));
     out.count(&format!("ext={}", ext));
-    out.count("oracle-evals");
+    out.eval(&df.src, true, json!({"src": df.src, "ext": ext, "rules": codes.len()}));
     let a = std::panic::catch_unwind(std::panic::AssertUnwindSafe(|| {
       linter.lint_file(LintFileOptions { specifier: spec.clone(), source_code: df.src.clone(), media_type: mt, config: cfg.clone(), external_linter: None })
     }));
